@@ -41,6 +41,8 @@ type c08Query struct {
 	Counted  bool   `json:"expect_counted"`
 	Client   string `json:"attributed_client,omitempty"`
 	Answered bool   `json:"answered"`
+	// Anon tells whether anonymisation was on when the query was sent.
+	Anon bool `json:"anonymisation_on_when_sent"`
 }
 
 func c08DoH(in *sysInst, src, clientID, name string, qtype uint16) (ok bool) {
@@ -118,8 +120,15 @@ func TestVerifC08(t *testing.T) {
 func c08Config(rep *verifkit.Report, rng *rand.Rand, up *sysUpstream, ci int) {
 	anonymize := ci%2 == 1
 	refuseAny := rng.Intn(2) == 0
+	// Every fourth configuration listens dual-stack, so that IPv4 clients
+	// arrive as IPv4-mapped IPv6 addresses.
+	bindHost := "127.0.0.1"
+	if ci%4 == 3 {
+		bindHost = "::"
+		rep.Class("configurations_dual_stack_listener")
+	}
 	in, err := sysStart("", sysConfOpts{
-		UpstreamPort: up.Port, QLogMemSize: 5,
+		UpstreamPort: up.Port, QLogMemSize: []int{5000, 40}[ci%2], BindHost: bindHost,
 		TLS:      "  enabled: false\n  allow_unencrypted_doh: true\n",
 		ExtraDNS: fmt.Sprintf("  refuse_any: %v\n", refuseAny),
 	})
@@ -180,9 +189,31 @@ func c08Config(rep *verifkit.Report, rng *rand.Rand, up *sysUpstream, ci int) {
 	srcs := []string{"127.0.3.7", "127.0.9.4", "127.0.9.200", "127.0.3.20", "127.0.3.30", "127.0.4.1"}
 	nQ := verifkit.Pick(70, 160)
 	var qs []*c08Query
+	// In the middle of the run anonymisation is switched (or re-set) at run
+	// time, through the current or the deprecated configuration endpoint.
+	anonNow := anonymize
+	anonAfter := rng.Intn(3) != 0
+	switchVia := []string{"PUT /control/querylog/config/update", "POST /control/querylog_config"}[rng.Intn(2)]
 	for qi := 0; qi < nQ; qi++ {
+		if qi == nQ/2 {
+			var st int
+			var body []byte
+			var aerr error
+			if strings.HasPrefix(switchVia, "PUT") {
+				st, body, aerr = in.API("PUT", "/control/querylog/config/update", map[string]any{"enabled": true, "anonymize_client_ip": anonAfter, "interval": 86400000, "ignored": qlogIgnore})
+			} else {
+				st, body, aerr = in.API("POST", "/control/querylog_config", map[string]any{"anonymize_client_ip": anonAfter})
+			}
+			if aerr != nil || st != 200 {
+				rep.Inconcl(fmt.Sprintf("%s: %d %v %s", switchVia, st, aerr, body))
+
+				return
+			}
+			anonNow = anonAfter
+			rep.Class("anonymisation_switched_via_" + strings.Fields(switchVia)[0])
+		}
 		class := classes[rng.Intn(len(classes))]
-		q := &c08Query{Unique: fmt.Sprintf("q%d-%s", qi, tag), Src: srcs[rng.Intn(len(srcs))], Qtype: dns.TypeA}
+		q := &c08Query{Unique: fmt.Sprintf("q%d-%s", qi, tag), Src: srcs[rng.Intn(len(srcs))], Qtype: dns.TypeA, Anon: anonNow}
 		name := q.Unique + "." + class + ".verif.example"
 		switch rng.Intn(12) {
 		case 0:
@@ -251,7 +282,7 @@ func c08Config(rep *verifkit.Report, rng *rand.Rand, up *sysUpstream, ci int) {
 			continue
 		}
 		qs = append(qs, q)
-		nontrivial := !q.Logged || !q.Counted || anonymize
+		nontrivial := !q.Logged || !q.Counted || q.Anon
 		rep.Eval(nontrivial, fmt.Sprintf("%d|%s|%s|%s|%s", ci, q.Name, q.Src, q.ClientID, q.Via))
 		if q.Logged {
 			rep.Class("queries_expected_logged")
@@ -283,7 +314,7 @@ func c08Config(rep *verifkit.Report, rng *rand.Rand, up *sysUpstream, ci int) {
 	if ci == 0 {
 		rep.Sample(map[string]any{"querylog_ignored": qlogIgnore, "statistics_ignored": statsIgnore, "clients": clients, "anonymize": anonymize, "first_queries": qs[:min(4, len(qs))]})
 	}
-	view := map[string]any{"anonymize_client_ip": anonymize, "refuse_any": refuseAny, "querylog_ignored": qlogIgnore, "statistics_ignored": statsIgnore, "clients": clients}
+	view := map[string]any{"anonymize_client_ip_at_start": anonymize, "anonymize_client_ip_after_switch": anonAfter, "switched_via": switchVia, "refuse_any": refuseAny, "querylog_ignored": qlogIgnore, "statistics_ignored": statsIgnore, "clients": clients}
 
 	// ---- Observation 1: the query-log API. ----------------------------------
 	_, body, _ := in.API("GET", "/control/querylog?limit=100000", nil)
@@ -301,7 +332,7 @@ func c08Config(rep *verifkit.Report, rng *rand.Rand, up *sysUpstream, ci int) {
 	// Later: make a so far logged class ignored and check that the API stops
 	// returning its entries although the file still has them.
 	lateIgnored := append(append([]string{}, qlogIgnore...), "||plain.verif.example^")
-	_, _, _ = in.API("PUT", "/control/querylog/config/update", map[string]any{"enabled": true, "anonymize_client_ip": anonymize, "interval": 86400000, "ignored": lateIgnored})
+	_, _, _ = in.API("PUT", "/control/querylog/config/update", map[string]any{"enabled": true, "anonymize_client_ip": anonAfter, "interval": 86400000, "ignored": lateIgnored})
 	_, body2, _ := in.API("GET", "/control/querylog?limit=100000", nil)
 	apiLogLate := strings.ToLower(string(body2))
 
@@ -397,31 +428,74 @@ func c08Config(rep *verifkit.Report, rng *rand.Rand, up *sysUpstream, ci int) {
 		}
 	}
 	// ---- Anonymisation. ---------------------------------------------------------
-	if anonymize {
+	// Stored: every entry recorded while anonymisation was on must carry a
+	// masked address in the file.
+	stored := map[string]string{}
+	for _, line := range bytes.Split(fileLog, []byte("\n")) {
+		var e struct {
+			QH string `json:"QH"`
+			IP string `json:"IP"`
+		}
+		if json.Unmarshal(line, &e) == nil && e.QH != "" {
+			stored[strings.ToLower(strings.SplitN(e.QH, ".", 2)[0])] = e.IP
+		}
+	}
+	for _, q := range qs {
+		ip, ok := stored[strings.ToLower(q.Unique)]
+		if !ok || !q.Anon {
+			continue
+		}
+		rep.Event("anonymisation_stored_address_checks")
+		if ip != c08Mask(q.Src) {
+			rep.Violate("unmasked-address:querylog.json:recorded-while-anonymisation-on",
+				"an entry recorded while anonymisation was on is stored with an un-anonymised client address",
+				map[string]any{"configuration": view, "query": q, "stored_ip": ip})
+		}
+	}
+	// Reported: while anonymisation is on, every reported address is masked.
+	if anonAfter {
 		for _, src := range srcs {
 			if c08Mask(src) == src {
 				continue
 			}
-			for where, hay := range map[string][]byte{"querylog.json": fileLog, "GET /control/querylog": body, "GET /control/stats": sbody, "stats.db": statsDB} {
-				// Persistent-client ids configured by the administrator are
-				// not client addresses of queries; the API echoes them in the
-				// client info of an entry, so look for the address as a value
-				// of the address fields only where the format is known.
+			hays := map[string][]byte{"GET /control/querylog": body}
+			if anonymize {
+				// Addresses counted before anonymisation was switched on are
+				// history the statement does not speak about (unspecified
+				// zone): the statistics API is judged only when anonymisation
+				// was on for the whole run.
+				hays["GET /control/stats"] = sbody
+			} else {
+				rep.Unspec("statistics recorded before anonymisation was switched on")
+			}
+			for where, hay := range hays {
 				needle := []byte(src)
-				switch where {
-				case "querylog.json":
-					needle = []byte(`"IP":"` + src + `"`)
-				case "GET /control/querylog":
+				if where == "GET /control/querylog" {
+					// (Persistent-client ids configured by the administrator
+					// are echoed in the client info; look at the address
+					// field of the entries.)
 					needle = []byte(`"client":"` + src + `"`)
 				}
 				if bytes.Contains(hay, needle) {
-					rep.Violate("unmasked-address:"+where, "an un-anonymised client address is stored or reported", map[string]any{"configuration": view, "address": src, "where": where})
+					rep.Violate("unmasked-address:"+where, "an un-anonymised client address is reported while anonymisation is on", map[string]any{"configuration": view, "address": src, "where": where})
 				}
 			}
-			rep.Event("anonymisation_address_checks")
+			rep.Event("anonymisation_reported_address_checks")
 		}
-		if !bytes.Contains(fileLog, []byte(`"IP":"127.0.0.0"`)) && len(fileLog) > 0 {
-			rep.Violate("masked-address-missing", "no entry with the masked address although anonymisation is on", map[string]any{"configuration": view})
+	}
+	if anonymize && anonAfter {
+		// Anonymisation was on for the whole run: nothing un-anonymised may be
+		// stored anywhere.
+		for _, src := range srcs {
+			if c08Mask(src) == src {
+				continue
+			}
+			if bytes.Contains(fileLog, []byte(`"IP":"`+src+`"`)) {
+				rep.Violate("unmasked-address:querylog.json", "an un-anonymised client address is stored", map[string]any{"configuration": view, "address": src})
+			}
+			if bytes.Contains(statsDB, []byte(src)) {
+				rep.Violate("unmasked-address:stats.db", "an un-anonymised client address is stored in stats.db", map[string]any{"configuration": view, "address": src})
+			}
 		}
 	}
 }
